@@ -40,6 +40,10 @@ def line_text(src, off):
 KEYWORD_WORDS = ["int", "char", "long", "short", "do", "if", "else", "for", "while", "void", "const", "static", "inline",
                  "default", "case", "goto", "enum", "union", "struct", "float", "double", "return", "break", "signed"]
 
+UPPER_WORDS = ["DEFINED", "IF", "ELSE", "ELIF", "ENDIF", "IFDEF", "IFNDEF", "DEFINE", "INCLUDE", "UNDEF", "INT", "CHAR", "LONG", "VOID", "WHILE",
+               "RETURN", "STRUCT", "SIZEOF", "TYPEDEF", "STATIC", "CONST", "GOTO", "DO", "FOR"]
+
+
 def name_class_rename(name, rng):
     """a name of the same length and naming class: prefix kept, each character replaced by one
     of its own class (lower / upper / digit), underscores kept"""
@@ -76,6 +80,14 @@ def name_class_rename(name, rng):
         else:
             out.append(ch)
     new = prefix + "".join(out)
+    # endings that look like a naming convention for something else (`size_t`-like), upper-case names that are a
+    # keyword or a directive word in capitals: still ordinary names of their class
+    if lower_snake and not prefix and len(rest) >= 4 and rng.random() < 0.12:
+        new = new[:-2] + rng.choice(["_t", "_s", "_e", "_u", "_p"])
+    if rest == rest.upper() and any(c.isalpha() for c in rest) and not prefix and rng.random() < 0.15:
+        kws = [k for k in UPPER_WORDS if len(k) == len(rest)]
+        if kws:
+            new = rng.choice(kws)
     # an upper-case name keeps at least one letter (`_056` is not upper-case any more)
     if rest == rest.upper() and any(c.isalpha() for c in rest) and not any(c.isalpha() for c in "".join(out)):
         return name
@@ -133,7 +145,7 @@ def renaming(src, name, rng, keywords):
 # ---------------------------------------------------------------- C17: same-width replacement
 
 CODE = "abcxyzABZ019 ;,(){}[]+-*/=<>!&|?:#_.%"
-CLASSES = ["abcdefghijklmnopqrstuvwxyz", "ABCDEFGHIJKLMNOPQRSTUVWXYZ", "0123456789", ";{}()+-=,", ";", "return(n);", " ", "a ", "_", "x"]
+CLASSES = ["\f", "a\f", "\x85\u2028", "abcdefghijklmnopqrstuvwxyz", "ABCDEFGHIJKLMNOPQRSTUVWXYZ", "0123456789", ";{}()+-=,", ";", "return(n);", " ", "a ", "_", "x"]
 ALT_SPELLINGS = ["<:", ":>", "<%", "%>", "%:", "??<", "??>", "??(", "??)", "??=", "??!", "??-", "%:%:"]
 
 
@@ -170,6 +182,9 @@ def swap_one(src, rng, header_lines=0):
             q = raw.index("'")
             if b - 1 == a + q + 2:
                 cands.append((a + q + 1, b - 1, '"', "char"))
+            elif b - 1 > a + q + 2:
+                # several characters between the quotes: not one character, whatever they are
+                cands.append((a + q + 1, b - 1, '"', "char-multi"))
     if not cands:
         return None
     if want_all:
@@ -197,8 +212,10 @@ def swap_one(src, rng, header_lines=0):
         if rng.random() < 0.3:
             cls = rng.choice(CLASSES)
             new = "".join(rng.choice(cls) for _ in range(b - a))
-        if "??/" in new or "\\" in new or (what == "string" and '"' in new) or (what == "char" and "'" in new):
+        if "??/" in new or "\\" in new or (what == "string" and '"' in new) or (what in ("char", "char-multi") and "'" in new):
             continue
+        if what in ("char", "char-multi") and new.endswith("??"):
+            continue        # `??'` would be the trigraph for `^`: the closing quote would be gone
         if what == "block" and ("*/" in new or new.endswith("*") and False or "/*" in new and False):
             continue
         if what == "block" and (new.endswith("*") or new.startswith("/") and False):
@@ -216,7 +233,7 @@ def class_swaps(src, rng, header_lines=0):
     cands = swap_one(src, rng, header_lines=(header_lines, "all"))
     out = []
     for a, b, extra, what in cands or []:
-        for cls in ("abcdefghijklmnopqrstuvwxyz", "ABCDEFGHIJKLMNOPQRSTUVWXYZ", "0123456789", ";{}()+-=,", "ab "):
+        for cls in ("abcdefghijklmnopqrstuvwxyz", "ABCDEFGHIJKLMNOPQRSTUVWXYZ", "0123456789", ";{}()+-=,", "ab ", "\f\v\x85"):
             new = "".join(rng.choice(cls) for _ in range(b - a))
             if what == "char" and new == " " and False:
                 continue
@@ -242,13 +259,15 @@ def shaped_swaps(src, rng, header_lines=0):
     for what, cs in by_kind.items():
         a, b, extra, _ = rng.choice(cs)
         n = b - a
-        own = {"string": '"', "char": "'"}.get(what, "")
+        own = {"string": '"', "char": "'", "char-multi": "'"}.get(what, "")
         base = "".join(rng.choice("abcxyz019 ;,(){}+-=&|_.") for _ in range(n))
         for suf in SHAPES_SUFFIX:
             if own and own in suf or len(suf) >= n:
                 continue
             new = base[: n - len(suf)] + suf
             if what == "block" and ("*/" in new):
+                continue
+            if what in ("char", "char-multi") and new.endswith("??"):
                 continue
             out.append((src[:a] + new + src[b:], {"what": what, "old": src[a:b], "new": new, "line": line_of_offset(src, a)}))
         for pre in SHAPES_PREFIX:
